@@ -79,6 +79,24 @@ Structured families (generated from a grammar, not from all strings <= L)
                     = 10) and 4..7 distinct punctuation characters in one
                     fragment (max_punc_in_group = 5), alone and inside a
                     longer shape
+  wide_sets()       K same-shape examples, K in {10,11,12,13} (either side of
+                    rexpy's per-fragment string cap), for shapes of 2-3
+                    fragments: one alnum fragment counts (distinct per
+                    example), one other fragment is CONSTANT except in the
+                    example at input position q, for every q in 0..K-1 (so
+                    also after the cap while all earlier ones agree); the odd
+                    value is of the same class or of a widening class; also
+                    K in {4,5,6,7} distinct punctuation characters in one
+                    fragment in every rotation (punctuation-group limit 5)
+  fragment_limit_sets()
+                    2 same-shape strings of 98/99/100/101 coarse fragments
+                    (and fine-class runs) differing in an early / middle /
+                    last fragment (MAX_GROUPS = 99)
+  history_menus()   [(name, [set A, set B, set C])]: example sets that share
+                    coarse signature, group count and constant fragments but
+                    differ in where the variable part sits (for E3 histories
+                    of calls in one process)
+  HISTORY_OPTION_POINTS  extra_letters {None,'.','-','_-.'} x tag x dialect
   FAMILY_OPTION_POINTS  the 12 option points {default, tag, perl, grep,
                     el='-', el='_-.'} x variableLengthFrags off/on
 """
@@ -504,6 +522,92 @@ def boundary_sets():
         yield list(puncs[:n])
         yield ['a' + c + '1' for c in puncs[:n]]
         yield [c + c for c in puncs[:n]] + [puncs[0]]
+
+
+_WIDE_SHAPES = [('U', 'p', 'd'), ('d', 'v', 'l'), ('l', 'p', 'U'),
+                ('h', 'p', 'd'), ('l', 'd'), ('d', 'U'), ('p', 'd'),
+                ('d', 'v'), ('U', 'l', 'd')]
+_COUNTER = {
+    'd': ['%02d' % i for i in range(16)],
+    'l': [a + b for a in 'gxyz' for b in 'pqwz'],
+    'h': [a + b for a in 'abcd' for b in 'cdef'],
+    'U': [a + b for a in 'ABQX' for b in 'KQXZ'],
+}
+_WIDEN = {'h': 'l', 'l': 'U', 'U': 'd', 'd': 'l', 'p': 'v', 'v': 'v'}
+
+
+def wide_sets():
+    for shape in _WIDE_SHAPES:
+        k = len(shape)
+        for c in range(k):                  # the counting fragment
+            if shape[c] not in _COUNTER:
+                continue
+            for j in range(k):              # the constant-but-one fragment
+                if j == c:
+                    continue
+                const = family_string((shape[j],), [2], 0)
+                odd_same = family_string((shape[j],), [2], 1)
+                odd_wide = family_string((_WIDEN[shape[j]],), [2], 3)
+                odds = _dedup([x for x in (odd_same, odd_wide)
+                               if x != const])
+                others = [family_string((shape[i],), [2], 0)
+                          for i in range(k)]
+                for K in (10, 11, 12, 13):
+                    for odd in odds:
+                        for q in range(K):
+                            xs = []
+                            for i in range(K):
+                                parts = list(others)
+                                parts[c] = _COUNTER[shape[c]][i]
+                                parts[j] = odd if i == q else const
+                                xs.append(''.join(parts))
+                            if len(set(xs)) == K:
+                                yield xs
+    puncs = '!#%&,/:'
+    for K in (4, 5, 6, 7):
+        for rot in range(K):
+            chars = [puncs[(rot + i) % K] for i in range(K)]
+            yield ['a' + ch + '%d' % i for (i, ch) in enumerate(chars)]
+            yield [ch + 'x' for ch in chars]
+
+
+def fragment_limit_sets():
+    def change(s, pos, alt):
+        return s[:pos] + alt[s[pos]] + s[pos + 1:]
+    alt = {'a': 'b', '-': '.', '1': '2'}
+    for unit in ('a-', 'a1'):
+        for nfrag in (98, 99, 100, 101):
+            base = (unit * (nfrag // 2 + 1))[:nfrag]
+            for pos in (0, 1, nfrag // 2, nfrag - 1):
+                yield [base, change(base, pos, alt)]
+
+
+def history_menus():
+    words = {'l': ['a', 'b', 'bc', 'cde', 'ab', 'bcd', 'c', 'e', 'ef'],
+             'U': ['X', 'Y', 'YY', 'ZZZ', 'XX', 'YZQ', 'Z', 'Q', 'QK'],
+             'd': ['1', '2', '23', '345', '12', '234', '3', '5', '56']}
+    for sep in (':', '-', '.'):
+        for c1 in 'lUd':
+            for c2 in 'lUd':
+                w1, w2 = words[c1], words[c2]
+                A_ = [w1[0] + sep + w2[2], w1[1] + sep + w2[3]]
+                B_ = [w1[4] + sep + w2[6], w1[5] + sep + w2[7]]
+                C_ = [w1[4] + sep + w2[2], w1[4] + sep + w2[8]]
+                yield ('%s%s%s' % (c1, sep, c2), [A_, B_, C_])
+
+
+def _history_points():
+    pts = []
+    for el in (None, '.', '-', '_-.'):
+        for tag in (False, True):
+            for d in ('portable', 'perl', 'grep'):
+                o = dict(DEFAULT_OPTIONS)
+                o.update({'extra_letters': el, 'tag': tag, 'dialect': d})
+                pts.append(o)
+    return pts
+
+
+HISTORY_OPTION_POINTS = _history_points()
 
 
 def _family_points():
